@@ -1,1 +1,190 @@
-//! c11_system (ntpd): not implemented yet.
+//! C11 / C09 (system-task link) — the daemon-level end of "is reset (re-resolved) … or demobilised … and sends
+//! nothing further": what `ntpd/src/daemon/system.rs` does with the ONE message a source task sends when it gives up.
+//!
+//! gd/ge check the decision inside `NtpSource`, gs (c11_task) that the real source task turns it into exactly one
+//! `MsgForSystem::{Unreachable, MustDemobilize}` and ends. This module checks the next hop with the REAL system
+//! task: the report must remove exactly that source from the system's table and reach exactly the spawner that
+//! created it with the matching reason — `Unreachable` (the spawner re-resolves), `Demobilized` (never respawned),
+//! `NetworkIssue` (respawned on the cached address) — and no other source may be touched (a source that keeps
+//! answering is never reset).
+//!
+//! The rig, the reference model and the judge are shared with c36_system.rs (same exploration: part X); this module
+//! reports only the classes that are the image of C11/C09 and counts what the sibling would say. Part E' runs ALL
+//! words over {W, RD, RU, RN} against the real `StandardSpawner` under the real `run` loop; part K lets the REAL
+//! source task give up by itself (three unanswered polls on a closed loopback port) and follows its report through
+//! the real system to a re-resolved replacement, the old source's published snapshot gone.
+use std::sync::Mutex;
+
+use super::c36_system as rig;
+use super::common::{self, Ctx};
+use rig::{E2, Finding, Kind};
+
+/// C36 judge code -> C11 class (None: not an image of C11/C09, the sibling c36_system reports it)
+fn c11_class(code: &str) -> Option<&'static str> {
+    Some(match code {
+        "wrong-removal-reason" => "C11:system-reset-vs-demobilize",
+        "source-not-removed" | "e2e-source-not-removed" | "soak-source-not-removed" => {
+            "C11:system-source-kept-after-report"
+        }
+        "removal-not-notified" | "removal-misdelivered" | "removal-wrong-id" | "removal-duplicated"
+        | "e2e-removal-not-notified" => "C11:system-report-not-forwarded-to-owner",
+        "wrong-source-removed" => "C11:system-other-source-removed",
+        "panic" | "handler-error" | "e2e-system-task-ended" | "soak-system-task-ended" => "C11:system-task-ended",
+        "e2e-demobilized-respawned" => "C11:system-demobilized-respawned",
+        "e2e-unreachable-not-reresolved" | "soak-unreachable-not-reresolved" => "C11:system-unreachable-not-reresolved",
+        "e2e-not-respawned" | "soak-unreachable-source-not-replaced" => "C11:system-unreachable-source-not-replaced",
+        "soak-snapshot-left-behind" => "C11:system-snapshot-left-behind",
+        _ => return None,
+    })
+}
+
+fn report(ctx: &Ctx, f: &Finding, trace: String) {
+    match c11_class(f.code) {
+        Some(c) => ctx.violation(c, f.what.clone(), trace),
+        None => ctx.inc(&format!("sibling_findings.{}", f.code)),
+    }
+}
+
+fn replay(ctx: &Ctx, trace: &str) -> String {
+    // run through the shared replayer with a scratch context, then map the classes
+    let scratch = Ctx::new("C11");
+    let obs = rig::replay_any(&scratch, "C36", trace);
+    let t = trace.trim();
+    if let Some(rest) = t.strip_prefix("E:") {
+        if let Some(evs) = rig::parse_e2(rest) {
+            if let (Some(f), _) = rig::judge_e2e(&evs, &rig::run_e2e(&evs)) {
+                report(ctx, &f, t.to_string());
+            }
+        }
+    } else if let Some(rest) = t.strip_prefix("K:") {
+        let n: usize = rest.trim().parse().unwrap_or(3);
+        if let Some(f) = rig::judge_soak(&rig::run_soak(n), n) {
+            report(ctx, &f, t.to_string());
+        }
+    } else if let Some(evs) = rig::parse_trace(t.strip_prefix("X:").unwrap_or(t)) {
+        if let (Some(f), _, _) = rig::judge(&evs, &rig::run_trace(&evs)) {
+            report(ctx, &f, t.to_string());
+        }
+    }
+    obs
+}
+
+#[test]
+fn check() {
+    let ctx = Ctx::new("C11");
+    if let Some(t) = common::replay_trace() {
+        let a = replay(&ctx, &t);
+        let b = replay(&ctx, &t);
+        common::report_replay("C11", &a, &b, ctx.violation_count() > 0);
+        return;
+    }
+    ctx.rule(
+        "X: every (state,event) of the deduplicated state graph and ALL event sequences up to the depth over S<i> / \
+         R<j><k> against the real SystemTask (as c36_system), judged for: reported source gone from the table, the owner \
+         — and nobody else — told once with that id and the reason of the report, no other source touched; a case is \
+         distinct by (trace, observation). E': all words over {W,RD,RU,RN} with the real StandardSpawner under the real run \
+         loop. K: the real source task gives up by itself.",
+    );
+    ctx.assume(
+        "the source task sends exactly one report and ends, removing its own published snapshot (c11_task); the system \
+         task holds no handle on source tasks, so 'sends nothing further' is the task's own doing — here only part K \
+         observes it (snapshot of the replaced source gone, system task alive = no second report arrived)",
+    );
+    ctx.assume("reports for ids that are not live are outside the environment (see c36_system); recorded, not judged");
+    ctx.assume("mock clock; cfg(test) DNS stub with 8 distinct addresses; closed loopback port, nobody answers");
+
+    let quick = ctx.quick();
+    let stale_terminal = rig::stale_report_aborts();
+    let (d_full, d_graph) = if quick { (5, 7) } else { (7, 9) };
+    let mut states = 0u64;
+    let mut edges = 0u64;
+    let mut traces = 0u64;
+    for (name, plan) in [
+        ("graph", rig::state_graph(d_graph, 3)),
+        ("tree", rig::full_tree(d_full, 3, stale_terminal)),
+    ] {
+        states = states.max(plan.states.len() as u64);
+        edges += plan.edges;
+        traces += plan.traces.len() as u64;
+        ctx.set(&format!("x_{name}_traces"), plan.traces.len() as u64);
+        ctx.set(&format!("x_{name}_edges"), plan.edges);
+        ctx.set(&format!("x_{name}_states"), plan.states.len() as u64);
+        for (f, t) in rig::run_plan(&ctx, &plan, 41) {
+            report(&ctx, &f, format!("X:{t}"));
+        }
+        if let Some(t) = plan.traces.iter().rev().find(|t| t.len() >= 4) {
+            ctx.sample(format!("X:{}", rig::fmt_trace(t)));
+        }
+    }
+    ctx.set("x_graph_depth", d_graph as u64);
+    ctx.set("x_tree_depth", d_full as u64);
+    ctx.set("states", states);
+    ctx.set("transitions", edges);
+    ctx.set("evaluations", traces);
+
+    // ---- part E': the reasons travel the real path to the real single-server spawner
+    let alphabet = [E2::W, E2::R(Kind::D), E2::R(Kind::U), E2::R(Kind::N)];
+    let n = if quick { 6 } else { 8 };
+    let total = common::pow(alphabet.len(), n);
+    let found: Mutex<Vec<(Finding, String)>> = Mutex::new(Vec::new());
+    let agg: Mutex<rig::E2Stats> = Mutex::new(rig::E2Stats::default());
+    common::par_for(total, 8, |i| {
+        let w: Vec<E2> = common::word_of(i, alphabet.len(), n).iter().map(|x| alphabet[*x]).collect();
+        let obs = rig::run_e2e(&w);
+        ctx.distinct(common::hash_of(&(&w, &obs)));
+        let (f, s) = rig::judge_e2e(&w, &obs);
+        {
+            let mut a = agg.lock().unwrap();
+            a.steps += s.steps;
+            a.s1_creates += s.s1_creates;
+            a.respawn_after_unreachable += s.respawn_after_unreachable;
+            a.respawn_after_network_issue += s.respawn_after_network_issue;
+            a.runs_with_demobilisation += s.runs_with_demobilisation;
+            a.steps_after_demobilisation += s.steps_after_demobilisation;
+        }
+        if let Some(f) = f {
+            let upto = (f.step + 1).min(w.len());
+            found.lock().unwrap().push((f, rig::fmt_e2(&w[..upto])));
+        }
+    });
+    {
+        let a = agg.lock().unwrap();
+        ctx.set("e_words", total);
+        ctx.set("e_steps", a.steps);
+        ctx.set("e_sources_created_by_real_spawner", a.s1_creates);
+        ctx.set("e_replaced_after_unreachable_with_fresh_lookup", a.respawn_after_unreachable);
+        ctx.set("e_replaced_after_network_issue", a.respawn_after_network_issue);
+        ctx.set("e_runs_with_demobilisation", a.runs_with_demobilisation);
+        ctx.set("e_steps_after_demobilisation_without_respawn", a.steps_after_demobilisation);
+        ctx.add("evaluations", total);
+        ctx.add("transitions", a.steps);
+    }
+    let mut v = found.into_inner().unwrap();
+    v.sort_by(|a, b| (a.1.len(), &a.1, a.0.code).cmp(&(b.1.len(), &b.1, b.0.code)));
+    v.dedup_by(|a, b| a.1 == b.1 && a.0.code == b.0.code);
+    for (f, t) in v {
+        report(&ctx, &f, format!("E:{t}"));
+    }
+    ctx.sample("E:W,RU,W,RD,W,W");
+
+    // ---- part K
+    let k_n = if quick { 3 } else { 6 };
+    let a = rig::run_soak(k_n);
+    let b = rig::run_soak(k_n);
+    if (rig::SoakObs { clock_adjustments: 0, ..a.clone() }) != (rig::SoakObs { clock_adjustments: 0, ..b }) {
+        ctx.inc("determinism_differences");
+    }
+    ctx.set("k_sources_replaced_after_real_unreachable_report", a.addresses.len().saturating_sub(1) as u64);
+    ctx.set("k_clock_adjustments_on_mock", a.clock_adjustments);
+    ctx.add("evaluations", 1);
+    if let Some(f) = rig::judge_soak(&a, k_n) {
+        report(&ctx, &f, format!("K:{k_n}"));
+    }
+    ctx.sample(format!("K:{k_n} -> {:?}", a.addresses));
+
+    if ctx.get("determinism_differences") > 0 {
+        ctx.violation("C11:system-nondeterministic-observation", "a re-run of the same trace observed something else", "");
+    }
+    ctx.exhaustive(true);
+    ctx.finish();
+}
